@@ -32,6 +32,7 @@ def run(chk):
     a64common.rule_shift_lossless(chk, A)
     a64common.rule_reg_type_seen(chk, A)
     a64common.rule_mem_base_label(chk, A)
+    a64common.rule_q_sz_related(chk, A)
     from lib import a64vec
     a64vec.run(chk, A)
     a64vec.run_signature_rows(chk, A)
